@@ -70,7 +70,13 @@ def perform(cname, x, call, nid, pool=None):
             ids = list(range(nid, nid + call["n"]))
             r = x.extend(keep(inject(cname, ids), cname, ids))
         elif op == "extend_wrong":
-            r = x.extend(keep(inject(WRONG[cname], [nid, nid + 1]), WRONG[cname], [nid, nid + 1]))
+            what = call.get("what", "object")
+            if what == "object":
+                r = x.extend(keep(inject(WRONG[cname], [nid, nid + 1]), WRONG[cname], [nid, nid + 1]))
+            elif what == "empty-object":
+                r = x.extend(keep(inject(WRONG[cname], []), WRONG[cname], []))
+            else:
+                r = x.extend([keep(inject(cname, [nid]), cname, [nid]), keep(inject(WRONG[cname], [nid + 1]), WRONG[cname], [nid + 1])])
         elif op == "insert":
             r = x.insert(call["i"], arg(call["kind"]))
         elif op == "pop":
